@@ -605,10 +605,14 @@ package adt
 //@   assigns heap
 
 // ---- C04: eliminating a duplicate disjunct never loses or invents a default mark ----
+//@ spec func baseOK() bool { forall m *Vertex :: {m.BaseValue} isType(m.BaseValue, *Vertex) ==> m.BaseValue.(*Vertex) != nil }
 //@ func (*Vertex).DerefValue
-//@   assumed A-int: follows shared-value indirections; read-only
+//@   requires v != nil && baseOK()
+//@   loop 0 invariant v != nil && (v == old(v) || isType(old(v.BaseValue), *Vertex))
+//@   ensures [nonnil] result != nil
+//@   ensures [fix] !isType(result.BaseValue, *Vertex)
+//@   ensures [id] !isType(v.BaseValue, *Vertex) ==> result == v
 //@   assigns nothing
-//@   ensures result != nil
 //@ func isCyclePlaceholder
 //@   assumed A-int: type test
 //@   assigns nothing
@@ -634,7 +638,7 @@ package adt
 // other than x itself.
 //@ func appendDisjunct
 //@   may_panic
-//@   requires forall k int :: 0 <= k && k < len(a) ==> a[k] != nil && a[k].node != nil
+//@   requires baseOK() && forall k int :: 0 <= k && k < len(a) ==> a[k] != nil && a[k].node != nil
 //@   requires x != nil ==> x.node != nil
 //@   loop 0 invariant -1 <= rangeindex && rangeindex < len(a)
 //@   loop 0 invariant forall m *nodeContext :: {m.defaultMode} m.defaultMode == old(m.defaultMode)
@@ -809,4 +813,30 @@ package adt
 //@   requires cfg != nil && ctxGen >= 0
 //@   ensures [private] result != nil && fresh(result)
 //@   ensures [generation] result.opID == ctxGen && ctxGen == old(ctxGen) + 1
+//@   assigns heap
+
+// ---- C04 / C19: taking the default of a vertex ----
+//@ func ToVertex
+//@   assumed A-int: wraps a value in a vertex unless it already is one; allocates only
+//@   ensures result != nil
+//@ func Default
+//@   assumed A-int: default of a value (recursive over disjunctions); allocates only
+//@ func stripNonDefaultsNode
+//@   assumed A-int: rewrites an expression keeping only marked disjuncts; allocates only
+// (P) C04: several defaults remain a disjunction of exactly those defaults (no
+// value is chosen silently); no default means the value itself; an open list is
+// closed in a copy. (P) C19: Default never writes to a vertex or list marker that
+// existed before the call — shared values are read-only, every change goes into
+// a fresh copy.
+//@ func (*Vertex).Default
+//@   may_panic
+//@   nocheck bounds
+//@   requires v != nil && baseOK()
+//@   loop 0 invariant -1 <= rangeindex && forall m *Vertex :: {m.Conjuncts} !fresh(m) ==> same(m.Conjuncts, old(m.Conjuncts)) && m.BaseValue == old(m.BaseValue) && m.state == old(m.state) && m.ArcType == old(m.ArcType)
+//@   loop 0 invariant forall l *ListMarker :: {l.IsOpen} !fresh(l) ==> l.IsOpen == old(l.IsOpen)
+//@   ensures [shared] forall m *Vertex :: {m.Conjuncts} !fresh(m) ==> same(m.Conjuncts, old(m.Conjuncts)) && m.BaseValue == old(m.BaseValue) && m.state == old(m.state) && m.ArcType == old(m.ArcType)
+//@   ensures [sharedmarker] forall l *ListMarker :: {l.IsOpen} !fresh(l) ==> l.IsOpen == old(l.IsOpen)
+//@   ensures [nodefault] isType(old(v.BaseValue), *Disjunction) && old(v.BaseValue.(*Disjunction).NumDefaults) == 0 ==> result == v
+//@   ensures [ambiguous] isType(old(v.BaseValue), *Disjunction) && old(v.BaseValue.(*Disjunction).NumDefaults) > 1 ==> fresh(result) && isType(result.BaseValue, *Disjunction) && fresh(result.BaseValue.(*Disjunction)) && result.BaseValue.(*Disjunction).NumDefaults == 0 && len(result.BaseValue.(*Disjunction).Values) == old(v.BaseValue.(*Disjunction).NumDefaults)
+//@   ensures [closedlist] isType(old(v.BaseValue), *ListMarker) && old(v.BaseValue.(*ListMarker).IsOpen) ==> fresh(result) && isType(result.BaseValue, *ListMarker) && !result.BaseValue.(*ListMarker).IsOpen
 //@   assigns heap
